@@ -59,7 +59,7 @@ fn cmd_encode(args: &[String]) {
             let a = aj::to_aj(x);
             // round trip self check
             let back = aj::from_aj(&a).unwrap_or_else(|e| die(&e));
-            if back.to_string() != x.to_string() {
+            if aj::to_aj(&back) != a {
                 die(&format!("corpus round trip failed: {}", x));
             }
             writeln!(w, "{}", a).unwrap();
